@@ -113,6 +113,45 @@ MUTATIONS = {
     "mode-reorder-or": ("C16", "fs/mode.py",
         '        return "a" in self or "w" in self or "x" in self\n',
         '        return "x" in self or "w" in self or "a" in self\n', "refactor"),
+    # ---- round 4: fs/copy.py::_copy_is_necessary, fs/mirror.py::_compare (C19), fs/errors.py table (C06), class Info (C10)
+    "copy-newer-or-equal": ("C19", "fs/copy.py",
+        "                or src_modified > dst_modified\n", "                or src_modified >= dst_modified\n", "semantic"),
+    "copy-missing-means-skip": ("C19", "fs/copy.py",
+        "        except ResourceNotFound:\n            return True\n", "        except ResourceNotFound:\n            return False\n", "semantic"),
+    "mirror-compare-or-equal": ("C19", "fs/mirror.py",
+        "    return date1 is None or date2 is None or date1 > date2\n",
+        "    return date1 is None or date2 is None or date1 >= date2\n", "semantic"),
+    "copy-else-dedent": ("C19", "fs/copy.py",
+        "        else:\n            return (\n                src_modified is None\n                or dst_modified is None\n"
+        "                or src_modified > dst_modified\n            )\n",
+        "        return (\n            src_modified is None\n            or dst_modified is None\n"
+        "            or src_modified > dst_modified\n        )\n", "refactor"),
+    "copy-rename-locals": ("C19", "fs/copy.py", "src_modified", "src_time", "refactor"),
+    "mirror-compare-temp": ("C19", "fs/mirror.py",
+        "    return date1 is None or date2 is None or date1 > date2\n",
+        "    newer = date1 is None or date2 is None or date1 > date2\n    return newer\n", "refactor"),
+    # (`class ResourceNotFound(FSError)` instead would break every backend's constructor calls: the run ends as INFRA)
+    "errors-fileexpected-base": ("C06", "fs/errors.py",
+        "class FileExpected(ResourceInvalid):", "class FileExpected(ResourceError):", "semantic"),
+    "errors-template-field": ("C06", "fs/errors.py",
+        "default_message = \"path '{path}' has no '{purpose}' URL\"", "default_message = \"path '{path}' has no '{kind}' URL\"", "semantic"),
+    "errors-init-order": ("C06", "fs/errors.py",
+        "        self.path = path\n        self.exc = exc\n        super(PathError, self).__init__(msg=msg)\n",
+        "        self.exc = exc\n        self.path = path\n        super(PathError, self).__init__(msg=msg)\n", "refactor"),
+    "errors-new-subclass": ("C06", "fs/errors.py",
+        "class ResourceReadOnly(ResourceError):",
+        "class ResourceBusy(ResourceError):\n    \"\"\"The resource is in use.\"\"\"\n\n    default_message = \"resource '{path}' is busy\"\n\n\n"
+        "class ResourceReadOnly(ResourceError):", "refactor"),
+    "info-suffix-keeps-dotfile": ("C10", "fs/info.py",
+        "        if name.startswith(\".\") and name.count(\".\") == 1:\n            return \"\"\n", "", "semantic"),
+    "info-is-link-no-namespace-check": ("C10", "fs/info.py",
+        "        self._require_namespace(\"link\")\n        return self.get(\"link\", \"target\", None) is not None\n",
+        "        return self.get(\"link\", \"target\", None) is not None\n", "semantic"),
+    "info-get-without-try": ("C10", "fs/info.py",
+        "        try:\n            return self.raw[namespace].get(key, default)  # type: ignore\n        except KeyError:\n            return default\n",
+        "        if namespace in self.raw:\n            return self.raw[namespace].get(key, default)  # type: ignore\n        return default\n", "refactor"),
+    "info-stem-temp": ("C10", "fs/info.py",
+        "        return name.split(\".\")[0]\n", "        parts = name.split(\".\")\n        return parts[0]\n", "refactor"),
 }
 
 
